@@ -198,6 +198,9 @@ def _ser(x):
 
 
 def replay(data):
+    if isinstance(data, dict) and data.get('kind') == 'authoropts':
+        from . import authoropts
+        return authoropts.replay(data)
     common.install_common_stubs()
     import bert_e.workflow.gitwaterflow as gwf
     import bert_e.reactor as RX
@@ -292,3 +295,7 @@ def check(rep):
     slash_lemma(rep)
     gwf.setup({})
     rep.sample(dict(texts=[t[0] for t in T[:8]], roles=ROLES))
+    # the per-author settings as a source of these bypasses (real loader + accessors)
+    from . import authoropts
+    authoropts.check(rep, 'C07', ['bypass_author_approval', 'bypass_peer_approval', 'bypass_leader_approval', 'bypass_build_status', 'bypass_jira_check', 'bypass_incompatible_branch', 'bypass_commit_size'])
+
